@@ -1,2 +1,2 @@
--- stub: suite not built yet
-def main : IO Unit := pure ()
+import ShellOp.Drv.C03
+def main : IO Unit := ShellOp.Drv.C03.suite.main
